@@ -3,6 +3,7 @@ xflate.Writer as a state machine: error latch, Close, counters, configuration
 (C13, C18, parts of C05).
 -/
 import Compress.XFlate.WriterSpec
+import Compress.Proofs.XFlateWriterLatchAux
 
 namespace Compress.Proofs.XFlateWriterLatch
 open Compress Compress.XFlate
@@ -10,63 +11,146 @@ open Compress Compress.XFlate
 /-- `NewWriter` refuses exactly the invalid configurations. -/
 theorem newWriter_none_iff (level chunk index : Int) (hasConf : Bool) (sink : Sink) (oracle : List ZEv) :
     newWriter level chunk index hasConf sink oracle = none ↔ ¬ ValidConfig level chunk hasConf := by
-  sorry
+  unfold newWriter ValidConfig
+  cases hasConf <;> simp
 
 /-- a latched error (other than "closed") makes every later call fail with that
     same error and change nothing. -/
 theorem err_sticky (crc : List UInt8 → Nat) (s : XWState) (e : Err) (h : s.err = some e) (hc : e ≠ .closed) (op : WOp) :
     stepW crc s op = (s, match op with | .write _ => .write 0 (some e) | .flush _ => .flush (some e) | .close => .close (some e)) := by
-  sorry
+  cases op <;> simp [stepW, write, flush, closeW, h, hc]
 
 /-- after a successful Close: Write and Flush are refused with the "closed"
     error, Close is idempotent, and nothing changes (so no byte reaches the sink). -/
 theorem closed_refuses (crc : List UInt8 → Nat) (s : XWState) (h : s.err = some .closed) (op : WOp) :
     stepW crc s op = (s, match op with | .write _ => .write 0 (some .closed) | .flush _ => .flush (some .closed) | .close => .close none) := by
-  sorry
+  cases op <;> simp [stepW, write, flush, closeW, h]
 
 /-- Close latches: `nil` means the writer is now closed, an error means that error is latched. -/
 theorem close_latches (crc : List UInt8 → Nat) (s : XWState) :
     ((closeW crc s).2 = none → (closeW crc s).1.err = some .closed) ∧
     (∀ e, (closeW crc s).2 = some e → (closeW crc s).1.err = some e) := by
-  sorry
+  unfold closeW
+  split
+  · simp_all
+  · split
+    · simp_all
+    · generalize (if s.zwOut + s.zwIn > 0 ∨ s.recs.length > 0 then flushIndex crc s else s) = t
+      dsimp only
+      split
+      · simp_all
+      · split
+        · simp
+        · split
+          · simp
+          · split <;> simp
 
 /-- an error returned by Write or a valid Flush is latched. -/
 theorem op_error_latched (crc : List UInt8 → Nat) (s : XWState) (hs : s.err = none) :
     (∀ d e, (write crc s d).2.2 = some e → (write crc s d).1.err = some e) ∧
     (∀ m e, m ≤ 2 → (flush crc s m).2 = some e → (flush crc s m).1.err = some e) := by
-  sorry
+  constructor
+  · intro d e
+    simp [write, hs]
+  · intro m e hm
+    unfold flush
+    simp only [hs]
+    match m, hm with
+    | 0, _ => simp
+    | 1, _ => simp
+    | 2, _ => simp
 
 /-- the sink only ever grows: every operation appends to what the underlying
     writer already holds. -/
 theorem sink_append_only (crc : List UInt8 → Nat) (s : XWState) (op : WOp) :
     ∃ suffix, (stepW crc s op).1.sink.got = s.sink.got ++ suffix := by
-  sorry
+  obtain ⟨suf, h, -⟩ := step_out crc s op
+  exact ⟨suf, h⟩
 
 /-- C13 counters: `OutputOffset` is the number of bytes the sink accepted. -/
 theorem outOff_invariant (crc : List UInt8 → Nat) (s : XWState) (h : s.outOff = s.sink.got.length) (op : WOp) :
     (stepW crc s op).1.outOff = (stepW crc s op).1.sink.got.length := by
-  sorry
+  obtain ⟨suf, h1, h2⟩ := step_out crc s op
+  rw [h2, h1, h, List.length_append]
+  omega
 
 /-- C13 counters: `InputOffset` grows by exactly the count Write reports. -/
 theorem inOff_write (crc : List UInt8 → Nat) (s : XWState) (d : List UInt8) :
     (write crc s d).1.inOff = s.inOff + (write crc s d).2.1 ∧ (write crc s d).2.1 ≤ d.length ∨ (write crc s d).1.bad = true := by
-  sorry
+  unfold write
+  split
+  · left; simp
+  · have hi := (writeLoop_rel crc (2 * d.length + 2) s d 0).inOff
+    rcases writeLoop_cnt crc (2 * d.length + 2) s d 0 with hb | hc
+    · right; exact hb
+    · left
+      dsimp only
+      rw [hi]
+      exact ⟨rfl, by omega⟩
+
+/-- the compressor never hands back xflate's own "closed" error for a call
+    during which the sink refused bytes. (In Go `errClosed` is a value private to
+    package xflate, so compress/flate cannot return it at all.) -/
+def ZErrNotClosed (oracle : List ZEv) : Prop :=
+  ∀ ev ∈ oracle, ev.sinkFailed = true → ev.err ≠ some .closed
+
+theorem zs_iff (oracle : List ZEv) : ZS oracle ↔ ZErrSurfaced oracle ∧ ZErrNotClosed oracle :=
+  ⟨fun h => ⟨fun ev he hf => (h ev he hf).1, fun ev he hf => (h ev he hf).2⟩,
+   fun h ev he hf => ⟨h.1 ev he hf, h.2 ev he hf⟩⟩
 
 /-- C13 surfacing: under the compressor contract "a refused sink write comes
     back as an error", once the sink has refused bytes the writer holds an error
     that is not "closed" — so the failure was returned by the call in progress,
     every later call fails, and Close never returns nil. -/
+-- STATEMENT ADJUSTED: as originally written (only `ZErrSurfaced`) the statement is false: the oracle may
+-- answer a refused sink write with the error value `Err.closed` itself, e.g.
+--   s := { nidx := 4096, nchk := 262144, oracle := [{ kind := .zflush, err := some .closed, sinkFailed := true }] }
+--   (stepW crc s (.flush 0)).1  has  err = some .closed  and  sink.failed = true
+-- (`ZErrSurfaced s.oracle` holds since `some .closed ≠ none`). The compressor contract therefore also has to
+-- say that this error is not xflate's private `errClosed` (hypothesis `hzc`, preserved like `hz`).
 theorem sink_failure_latched (crc : List UInt8 → Nat) (s : XWState)
-    (hz : ZErrSurfaced s.oracle)
+    (hz : ZErrSurfaced s.oracle) (hzc : ZErrNotClosed s.oracle)
     (hinv : s.sink.failed = true → (s.err ≠ none ∧ s.err ≠ some .closed)) (op : WOp) :
     let s' := (stepW crc s op).1
-    ZErrSurfaced s'.oracle ∧ (s'.sink.failed = true → (s'.err ≠ none ∧ s'.err ≠ some .closed)) := by
-  sorry
+    ZErrSurfaced s'.oracle ∧ ZErrNotClosed s'.oracle ∧
+      (s'.sink.failed = true → (s'.err ≠ none ∧ s'.err ≠ some .closed)) := by
+  intro s'
+  have h : OK s' := step_ok crc s op ⟨(zs_iff _).2 ⟨hz, hzc⟩, hinv⟩
+  exact ⟨((zs_iff _).1 h.1).1, ((zs_iff _).1 h.1).2, h.2⟩
+
+/-- kernel-checked counterexample: the statement of `sink_failure_latched` without
+    `ZErrNotClosed` (its original form) is refutable. -/
+theorem sink_failure_latched_original_false :
+    ¬ ∀ (crc : List UInt8 → Nat) (s : XWState), ZErrSurfaced s.oracle →
+        (s.sink.failed = true → (s.err ≠ none ∧ s.err ≠ some .closed)) → ∀ op : WOp,
+        let s' := (stepW crc s op).1
+        ZErrSurfaced s'.oracle ∧ (s'.sink.failed = true → (s'.err ≠ none ∧ s'.err ≠ some .closed)) := by
+  intro h
+  let cex : XWState :=
+    { nidx := 4096, nchk := 262144, oracle := [{ kind := .zflush, err := some .closed, sinkFailed := true }] }
+  have h1 := h (fun _ => 0) cex (by intro ev he; simp [cex] at he; subst he; simp) (by simp [cex]) (.flush 0)
+  have h2 := h1.2 (by simp [stepW, flush, flushSync, popEv, cex, Sink.absorb])
+  exact h2.2 (by simp [stepW, flush, flushSync, popEv, cex])
+
+theorem runW_ok (crc : List UInt8 → Nat) (ops : List WOp) : ∀ s, OK s → OK (runW crc s ops).1 := by
+  induction ops with
+  | nil => intro s h; exact h
+  | cons op ops ih =>
+    intro s h
+    have := ih _ (step_ok crc s op h)
+    simpa [runW] using this
 
 /-- lifted to whole histories: Close can only succeed if the sink never refused a byte. -/
+-- STATEMENT ADJUSTED: same counterexample as for `sink_failure_latched` (with `ops := [.flush 0]` the final
+-- state has `err = some .closed` and `sink.failed = true`); hypothesis `hzc` added.
 theorem no_false_success (crc : List UInt8 → Nat) (s0 : XWState) (h0 : s0.sink.failed = false)
-    (hz : ZErrSurfaced s0.oracle) (ops : List WOp) :
+    (hz : ZErrSurfaced s0.oracle) (hzc : ZErrNotClosed s0.oracle) (ops : List WOp) :
     (runW crc s0 ops).1.err = some .closed → (runW crc s0 ops).1.sink.failed = false := by
-  sorry
+  intro hc
+  have h : OK (runW crc s0 ops).1 :=
+    runW_ok crc ops s0 ⟨(zs_iff _).2 ⟨hz, hzc⟩, fun hf => by simp [h0] at hf⟩
+  cases hf : (runW crc s0 ops).1.sink.failed with
+  | false => rfl
+  | true => exact absurd hc (h.2 hf).2
 
 end Compress.Proofs.XFlateWriterLatch
